@@ -79,6 +79,58 @@ def newLoop (parse : String → Option String) (k : Kind) (n : Name) : Stz → L
 def newStz (parse : String → Option String) (k : Kind) (n : Name) (as : List Attr) : Option Stz :=
   newLoop parse k n ⟨n, "", "", "", "", if k = .message then "normal" else ""⟩ as
 
+
+/-! ### the struct-tag path (`xml.Marshal` / `xml.Unmarshal` of the stanza structs), start element only
+
+What `encoding/xml` documents for these struct definitions:
+
+* `XMLName xml.Name \`xml:"iq"\``: the tag names the element, so on marshalling the name (and
+  namespace) in the `XMLName` *value* is not consulted — the element is `<iq>` in no namespace;
+  on unmarshalling the local name must be `iq`, any namespace is accepted and stored.
+* attribute fields in declaration order `id, to, from, xml:lang, type`; `omitempty` skips empty
+  strings, but `jid.JID` is a struct (never "empty") whose `MarshalXMLAttr` prints `""` for the
+  zero value; `IQType` and `MessageType` are printed through `MarshalText` (`""` ↦ `get`, an
+  undefined message type ↦ `normal`).
+* on unmarshalling an attribute field without a namespace in its tag matches an attribute of
+  that local name in *any* namespace, later attributes overwrite earlier ones, `jid.JID` and
+  `MessageType` go through their `UnmarshalXMLAttr`, a missing attribute leaves the zero value. -/
+
+def iqTypes : List String := ["get", "set", "result", "error"]
+
+def iqTypeText (t : String) : String := if t = "" then "get" else t
+
+def marshalName (k : Kind) : Name := ⟨"", k.loc⟩
+
+def marshalAttrs (k : Kind) (x : Stz) : List Attr :=
+  (if k = .message ∧ x.id = "" then [] else [attr0 "id" x.id])
+    ++ [attr0 "to" x.to, attr0 "from" x.from_]
+    ++ (if x.lang = "" then [] else [langAttr x.lang])
+    ++ (match k with
+        | .iq => [attr0 "type" (iqTypeText x.typ)]
+        | .message => if x.typ = "" then [] else [attr0 "type" (msgType x.typ)]
+        | .presence => if x.typ = "" then [] else [attr0 "type" x.typ])
+
+/-- one attribute of the reflection decode -/
+def reflectStep (parse : String → Option String) (k : Kind) (v : Stz) (a : Attr) : Option Stz :=
+  if a.name.loc = "lang" ∧ a.name.space = nsXML then some { v with lang := a.value }
+  else if a.name.loc = "id" then some { v with id := a.value }
+  else if a.name.loc = "to" then
+    if a.value = "" then some v else (parse a.value).map fun j => { v with to := j }
+  else if a.name.loc = "from" then
+    if a.value = "" then some v else (parse a.value).map fun j => { v with from_ := j }
+  else if a.name.loc = "type" then some { v with typ := if k = .message then msgType a.value else a.value }
+  else some v
+
+def reflectLoop (parse : String → Option String) (k : Kind) : Stz → List Attr → Option Stz
+  | v, [] => some v
+  | v, a :: as => match reflectStep parse k v a with
+    | some v' => reflectLoop parse k v' as
+    | none => none
+
+/-- `xml.Unmarshal` of a start element into `stanza.IQ|Message|Presence` (`none` = error) -/
+def reflectNew (parse : String → Option String) (k : Kind) (n : Name) (as : List Attr) : Option Stz :=
+  if n.loc = k.loc then reflectLoop parse k ⟨n, "", "", "", "", ""⟩ as else none
+
 /-- `Wrap` -/
 def wrap (k : Kind) (x : Stz) (payload : List Tok) : List Tok :=
   startElement k x :: payload ++ [.stop (startName k x)]
